@@ -99,6 +99,7 @@ _IT = "self._reader_iter"
 _OFF = "(0 if old(self._unprocessed_record) is None else 1)"
 _TAKEN = "(len(__yielded__) - " + _OFF + ")"
 _STREAM = [
+    ("yields-records", "forall(k, implies(0 <= k and k < len(__yielded__), __yielded__[k] is not None))"),
     ("pending-record-first", "implies(old(self._unprocessed_record) is not None, len(__yielded__) >= 1 and __yielded__[0] is old(self._unprocessed_record))"),
     ("then-the-next-records-of-this-chromosome-in-file-order", "len(__yielded__) >= " + _OFF + " and forall(k, implies(0 <= k and k < " + _TAKEN + ", "
         "__yielded__[" + _OFF + " + k] is " + _IT + ".items[old(" + _IT + ".cursor) + k] and " + _IT + ".items[old(" + _IT + ".cursor) + k].chrom == chromosome))"),
@@ -123,6 +124,7 @@ R.contract(
         ("first", "implies(old(self._unprocessed_record) is not None, __yielded__[0] is old(self._unprocessed_record))"),
         ("taken", "forall(k, implies(0 <= k and k < ci - old(" + _IT + ".cursor), __yielded__[" + _OFF + " + k] is " + _IT + ".items[old(" + _IT + ".cursor) + k] and "
                   + _IT + ".items[old(" + _IT + ".cursor) + k].chrom == chromosome))"),
+        ("non-null", "forall(k, implies(0 <= k and k < len(__yielded__), __yielded__[k] is not None))"),
         ("pending-kept", "self._unprocessed_record is old(self._unprocessed_record) and self._reader_iter is old(self._reader_iter)")])},
     extra={"yields": REF("Record"), "nullable": {}},
     props=["C04"])
